@@ -185,6 +185,22 @@ def run(ck):
                     ck.check(not writes, "C15.R4", "scalar_mult/out is %s" % which, fi.site(), "writes %s before raising" % writes)
                 else:
                     ck.violation("C15.R4", "scalar_mult/out is %s" % which, fi.site(), "an output buffer that aliases an argument is accepted (no error raised)")
+        # a *view* of an argument (x[:], x.view(...), x[...]) is another object with the same storage: writing the real part of the
+        # product into it destroys the operand before the imaginary part is computed - it must be refused like the argument itself
+        for which in ("x", "y"):
+            def build_v(it, which=which):
+                x, y = cx(it, "x", ("B",)), cx(it, "y", ("B",))
+                src = x if which == "x" else y
+                return [x, y], {"out": VTens(src.obj, src.view, src.shape)}
+            fi, paths = _call(ck, "scalar_mult", build_v)
+            for p in paths:
+                writes = [e for e in p.effects if e.kind == "write" and ("param:" + which) in e.origins]
+                if p.outcome == "raise":
+                    ck.check(not writes, "C15.R4", "scalar_mult/out is a view of %s" % which, fi.site(), "writes the operand before raising")
+                else:
+                    ck.violation("C15.R4", "scalar_mult/out is a view of %s" % which, fi.site(),
+                                 "an output buffer that shares its storage with an argument (e.g. out=%s[:]) is accepted: the operand is overwritten while the product is being computed and a wrong value is returned "
+                                 "(only `out is %s` is refused)" % (which, which), key="C15.R4|scalar_mult|out-view-of-%s" % which)
         # a distinct buffer is written in place and returned
         def build2(it):
             return [cx(it, "x", ("B",)), cx(it, "y", ("B",))], {"out": cx(it, "o", ("B",))}
